@@ -64,6 +64,21 @@ def run(tier, seed):
                           f"(first bad edge pattern {v['pattern']}, {v['nbad']} bad)",
                           {"obj": job["obj"], "form": job["form"], "which": job["which"], "pattern": v["pattern"],
                            "edges_active": GR.bits_of(max(v["pattern"], 0), m), "nbad": v["nbad"]})
+    # Graph.line_graph() as a specified function: vertices = edges, adjacent iff they share an endpoint
+    for r in recs:
+        if r["obj"]["kind"] != "graph":
+            continue
+        chk.note_case(f"linegraph/{r['id']}", len(r["obj"]["graph"]["edges"]) >= 2)
+        try:
+            lg = GR.mk_graph(r["obj"]["graph"]).line_graph()
+            got = sorted(sorted((a + 1, b + 1)) for (a, b) in lg.edges)
+            ok = lg.num_vertices == len(r["obj"]["graph"]["edges"]) and got == sorted(sorted(p) for p in r["linegraph"]) \
+                and len(set(map(tuple, got))) == len(got)
+        except Exception as e:  # noqa
+            got, ok = "raised " + type(e).__name__, False
+        if not ok:
+            chk.violation({"helper": "Graph.line_graph"}, "line_graph() differs from 'one vertex per edge, adjacent iff sharing an endpoint'",
+                          {"obj": r["obj"], "expected_pairs": r["linegraph"], "observed": got})
     # the path constraint exists only in primitive form
     for r in recs[:: max(1, len(recs) // 10)]:
         chk.note_case(f"path-nonprimitive/{r['id']}", True)
